@@ -6,7 +6,6 @@ import (
 	"bytes"
 	"context"
 	"fmt"
-	"go/types"
 	"os"
 	"os/exec"
 	"path/filepath"
@@ -178,12 +177,9 @@ func (e *Engine) backgroundAxioms(ts []*Term, mode Mode, typed []*Term) []*Term 
 		}
 		it := e.ifaceAsserts[ik]
 		out = append(out, Not(App("impl_"+ik, BoolSort, z)))
-		for id, t := range e.tagTypes {
-			if t == nil {
-				continue
-			}
+		for id := range e.tagTypes {
 			f := App("impl_"+ik, BoolSort, ar.IConst(int64(id+1)))
-			if types.Implements(t, it) {
+			if e.tagImplements(id+1, it) {
 				out = append(out, f)
 			} else {
 				out = append(out, Not(f))
